@@ -12,7 +12,7 @@ from ..doubles import Model, Loss, Log, recording_storage_class, num
 LEVEL = 'exploration'
 RULE = ("Product: explainer class in {IncrementalPFI, IncrementalSage, BatchSage, IntervalSage} x {required arguments only, any subset "
         "of optional arguments overridden} x feature-name types (all str / int / float / mixtures, given as list, tuple or range) x d in 1..5 x n_inner (constructor, "
-        "per call) x per-call update_storage x stream prefixes; loss in {positional-only callable (def loss(y_true, y_pred, /)), a loss over (value, weight) TUPLE targets, river "
+        "per call) x per-call update_storage x stream prefixes; loss in {positional-only callable (def loss(y_true, y_pred, /)), a bound method obj.loss(y_true, y_pred), a functools.partial, a loss over (value, weight) TUPLE targets, river "
         "MSE/MAE}; model in {plain callable, RiverWrapper, bound method of a fitted sklearn LinearRegression (-> SklearnWrapper)}. "
         "Oracle over the shared event log of the doubles: construction succeeds; per explain_one on an incremental explainer: "
         "seen_samples +1, model evaluations == 0 on the first call and == 1 + d*n_inner afterwards (marginal imputer), x / y / name "
@@ -83,6 +83,16 @@ class TupleTargetLoss:
         return v
 
 
+class _LossOwner:
+    """A loss that is a bound method: `def loss(self, y_true, y_pred)` has exactly the documented positional signature."""
+
+    def __init__(self, inner):
+        self.inner = inner
+
+    def loss(self, y_true, y_pred):
+        return self.inner(y_true, y_pred)
+
+
 def _mk_loss(kind, log):
     if kind == 'positional':
         return Loss({'kind': 'sq'}, 'float', log=log)
@@ -94,6 +104,15 @@ def _mk_loss(kind, log):
         return loss
     if kind == 'tuple_target':
         return TupleTargetLoss(log)
+    if kind == 'bound_method':
+        return _LossOwner(Loss({'kind': 'sq'}, 'float', log=log)).loss      # obj.loss with the documented (y_true, y_pred) signature
+    if kind == 'partial':
+        import functools
+        inner = Loss({'kind': 'sq'}, 'float', log=log)
+
+        def scaled(scale, y_true, y_pred):
+            return inner(y_true, y_pred)
+        return functools.partial(scaled, 1.0)
     from river import metrics
     return {'river_mse': metrics.MSE, 'river_mae': metrics.MAE}[kind]()
 
@@ -273,7 +292,7 @@ def inc_cases(draw):
     if model == 'sklearn_bound':
         loss = 'positional'
     else:
-        loss = draw(st.sampled_from(['positional', 'positional', 'river_mse', 'river_mae', 'tuple_target', 'varargs']))
+        loss = draw(st.sampled_from(['positional', 'positional', 'river_mse', 'river_mae', 'tuple_target', 'varargs', 'bound_method', 'partial']))
     spec = draw(cfgs.model_st(d, multi=False, allow_ignore=False))
     spec['outs'][0]['label'] = 'output'
     cls = draw(st.sampled_from(['pfi', 'sage']))
@@ -285,6 +304,8 @@ def inc_cases(draw):
                      ('dynamic', st.booleans()), ('lbib', st.booleans())):
             if draw(st.booleans()):
                 ov[k] = draw(s)
+    if 'imputer' not in ov and draw(st.integers(0, 2)) == 0:
+        ov['imputer'] = 'product'            # the documented non-default sampling strategy, with whatever names were drawn
     stream = draw(cfgs.stream_st(d, 2, 8))
     if model == 'sklearn_bound':
         # SklearnWrapper feeds np.asarray(list(x.values())): keep numeric values
@@ -306,7 +327,7 @@ def batch_cases(draw):
     container = draw(st.sampled_from(['list', 'list', 'tuple', 'range']))
     if container == 'range':
         names = list(range(d))
-    case = {'names_container': container, 'cls': cls, 'names': names, 'spec': spec, 'loss': draw(st.sampled_from(['positional', 'positional', 'river_mse', 'tuple_target', 'varargs'])),
+    case = {'names_container': container, 'cls': cls, 'names': names, 'spec': spec, 'loss': draw(st.sampled_from(['positional', 'positional', 'river_mse', 'tuple_target', 'varargs', 'bound_method', 'partial'])),
             'seeds': [draw(gen.seed32), draw(gen.seed32)], 'n_inner': draw(st.sampled_from([None, None, 1, 2])),
             'original': draw(st.booleans()), 'interval': draw(st.sampled_from([None, 1, 2, 3])),
             'storage_length': draw(st.integers(1, 4))}
